@@ -275,6 +275,17 @@ impl OsIpcSender {
             fds.push(shared_memory_region.store.fd());
         }
 
+        // The receiver's control buffer has room for MAX_FDS_IN_CMSG descriptors; any beyond that
+        // would be silently discarded by the kernel, mangling the message. Refuse instead.
+        fn check_fd_count(fds: &[c_int]) -> Result<(), UnixError> {
+            if fds.len() > MAX_FDS_IN_CMSG as usize {
+                Err(UnixError::Errno(libc::EINVAL))
+            } else {
+                Ok(())
+            }
+        }
+        check_fd_count(&fds)?;
+
         // `len` is the total length of the message.
         // Its value will be sent as a message header before the payload data.
         //
@@ -408,6 +419,7 @@ impl OsIpcSender {
         let (dedicated_tx, dedicated_rx) = channel()?;
         // Extract FD handle without consuming the Receiver, so the FD doesn't get closed.
         fds.push(dedicated_rx.fd.get());
+        check_fd_count(&fds)?;
         let mut dedicated_rx = Some(dedicated_rx);
 
         // Split up the packet into fragments.
